@@ -102,9 +102,16 @@ def run_dsop(w, s):
             per_var[k] = (lambda a, k=k: a.take({dim: idx}, indexing="position" if position else "label") if has(k) else a)
     elif what == "reduce":
         fn, skipna = s["fn"], s["skipna"]
-        real = lambda: getattr(ds, fn)(axis=axis, skipna=skipna)
-        for k in keys:
-            per_var[k] = (lambda a, k=k: getattr(a, fn)(axis=dim, skipna=skipna) if has(k) else a)
+        if "axis" in s and s["axis"] is None:
+            real = lambda: getattr(ds, fn)(axis=None, skipna=skipna)
+            for k in keys:
+                per_var[k] = (lambda a: getattr(a, fn)(axis=None, skipna=skipna))
+            dim = None
+            has = lambda k: True
+        else:
+            real = lambda: getattr(ds, fn)(axis=axis, skipna=skipna)
+            for k in keys:
+                per_var[k] = (lambda a, k=k: getattr(a, fn)(axis=dim, skipna=skipna) if has(k) else a)
     elif what == "take_axis":
         ind, indexing = s["ind"], s["indexing"]
         mkw = {"mode": s["mode"]} if "mode" in s else {}
@@ -156,6 +163,15 @@ def run_dsop(w, s):
         m2 = _perturbed_model(m)
         if s.get("drop_key") and len(keys) >= 2:
             del m2.vars[keys[-1]]           # the keys overlap only partly: the result holds the common variables
+        if s.get("other_labels"):
+            # the second dataset carries another label at one position of one dimension: arithmetic joins outer
+            for d_ in m2.used():
+                labs_ = m2.dims[d_]["labels"]
+                if labs_:
+                    new_ = ("zz9" if isinstance(labs_[-1], str) else labs_[-1] + 1000)
+                    if new_ not in labs_:
+                        m2.dims[d_]["labels"] = labs_[:-1] + [new_]
+                        break
         if s.get("transpose_var"):
             for k_ in m2.vars:              # the same variable stored with its dimensions in another order
                 if len(m2.vars[k_]["dims"]) >= 2:
